@@ -206,7 +206,9 @@ class PASHARungSystem(PromotionRungSystem):
         for epoch in range(top_epoch, bottom_epoch, -1):
             if len(self.epoch_to_trials[epoch]) > 1:
                 for pair in itertools.combinations(self.epoch_to_trials[epoch], 2):
-                    c1, c2 = pair[0], pair[1]
+                    # the set of trials is iterated in hash order: the pair must be
+                    # identified independently of the order of its members
+                    c1, c2 = sorted(pair)
                     if (c1, c2) not in seen_pairs:
                         seen_pairs.add((c1, c2))
                         p1, p2 = (
